@@ -47,4 +47,25 @@ def main():
     sys.exit(rc)
 
 
-main()
+
+def guarded():
+    """Fail closed at the top level: if the harness itself crashes (an unrecognised source shape read at import, a driver format it
+    cannot print, ...) the property is no longer shown to hold -- report that instead of dying without a verdict."""
+    try:
+        main()
+    except SystemExit:
+        raise
+    except BaseException as e:
+        import json, traceback, hashlib
+        pid = sys.argv[1] if len(sys.argv) > 1 else '?'
+        tb = traceback.format_exc()
+        os.makedirs(f"{common.ROOT}/replay", exist_ok=True)
+        path = f"{common.ROOT}/replay/{pid}-unproved-{hashlib.sha256(tb.encode()).hexdigest()[:16]}.json"
+        json.dump({'property': pid, 'no_longer_checks': [{'kind': 'harness', 'detail': f'{type(e).__name__}: {e}', 'traceback': tb[-3000:]}]},
+                  open(path, 'w'), indent=1)
+        print(f"VIOLATION property={pid} replay={path} no-failing-input-found")
+        print("  no longer checks:", json.dumps({'kind': 'harness', 'detail': f'{type(e).__name__}: {e}'})[:600])
+        sys.exit(1)
+
+
+guarded()
